@@ -501,7 +501,17 @@ pub fn format_swift_amount(amount: f64, decimals: usize) -> String {
 /// ```
 pub fn format_swift_amount_for_currency(amount: f64, currency: &str) -> String {
     let decimals = get_currency_decimals(currency);
-    format_swift_amount(amount, decimals as usize)
+    let mut formatted = format_swift_amount(amount, decimals as usize);
+    // An amount component is 15d and the parsers reject anything longer. Trailing zeros of the
+    // decimal part are optional, so drop those that would push the text beyond the limit (and
+    // the comma too if a 15-digit integer part leaves no room for it, as read by parse_amount).
+    while formatted.len() > 15 && formatted.contains(',') && formatted.ends_with('0') {
+        formatted.pop();
+    }
+    if formatted.len() > 15 && formatted.ends_with(',') {
+        formatted.pop();
+    }
+    formatted
 }
 
 /// Parse date in YYMMDD format
